@@ -53,7 +53,7 @@ function allCases(thorough) {
   const seeds = base.filter((c) => Object.keys(c.files).length === 0).slice(0, thorough ? 400 : 120).map((c) => T.print(c.main).text).filter((t) => t.length < 90)
   for (const m of mutants(seeds)) cases.push(m)
   // text pieces next to each other, with and without an (unprinted) comment between them: braces must not join
-  const PIECES = ['{', '}', '{{a}}', 'x{', '{x', '}}', '&#123;', 'a', '{{"{"}}']
+  const PIECES = ['{', '}', '{{a}}', 'x{', '{x', '}}', '&#123;', 'a', '{{"{"}}', "{{ 'a' + b }}"]
   const SEPS = ['', '<!-- c -->']
   for (const p1 of PIECES) for (const s1 of SEPS) for (const p2 of PIECES) {
     cases.push({ name: `adjacent-text:${p1}${s1}${p2}`, raw: `<div>${p1}${s1}${p2}</div>` })
